@@ -1,4 +1,4 @@
-\* MC_GoChannel_b_dr.cfg2
+\* buffered, only the single pop before reporting closed as written: must violate DrainAfterClose
 SPECIFICATION Spec
 CONSTANTS
   Cap = 1
